@@ -143,16 +143,25 @@ def lineage(ops, doc):
     """Ops of one document: its own operations plus, for copies / parsed documents, the source's
     operations up to the point of derivation."""
     derive = {}
+    uses = {}           # doc -> [(other doc it reads, op index)]: cross-document fault ops ('attached' in another doc)
     for i, op in enumerate(ops):
         if op['op'] == 'DEEPCOPY':
             derive[op['doc']] = (op['p'][0], i)
+        att = op.get('attached')
+        if att and 'p' in op and att[0] != op['p'][0]:
+            uses.setdefault(op['p'][0], []).append((att[0], i))
     need = {}
 
-    def add(d, upto):
+    def add(d, upto, depth=0):
+        if need.get(d, -1) >= upto or depth > 6:
+            return
         need[d] = max(need.get(d, -1), upto)
         if d in derive:
             src, i = derive[d]
-            add(src, min(i, upto))
+            add(src, min(i, upto), depth + 1)
+        for other, i in uses.get(d, []):
+            if i <= upto:
+                add(other, i, depth + 1)
     add(doc, len(ops))
     out = []
     for i, op in enumerate(ops):
